@@ -23,6 +23,10 @@ def snap_obj(o):
         d["children"] = [id(c) for c in o._children]
         d["sources"] = [id(c) for c in o._sources]
         d["sensors"] = [id(c) for c in o._sensors]
+    # every list-valued instance attribute is bookkeeping the object owns (a collection's _collections, ...): same entries, same order
+    for a, v in sorted(vars(o).items()):
+        if isinstance(v, list) and a not in ("_children", "_sources", "_sensors"):
+            d["list:" + a] = [id(c) for c in v]
     # every other instance attribute with a plain value (a failed call must not leave notes on the object: caches, flags, counters)
     for a, v in sorted(vars(o).items()):
         if a not in d and a.lstrip("_") not in ("style", "style_kwargs", "parent", "position", "orientation", "field_func") and isinstance(v, (tuple, str, int, float, bool, type(None), frozenset)):
@@ -133,10 +137,27 @@ def sweep(ctx, n):
             arr = far_points(nps, 3, lo=4, hi=8)
             obs_in = arr
             caller_arrays.append(arr)
+        # the same call through the other interfaces: the method of a collection that holds everything in a tree three or four levels
+        # deep, the method of the first source, the method of the first sensor
+        form = "top"
+        if fault not in ("dict-kwargs-mix", "bad-observer") and not caller_arrays and rng.random() < 0.45:
+            form = rng.choice(["coll-method", "coll-method", "src-method", "sens-method"])
+        if form == "coll-method":
+            inner = magpy.Collection(*srcs[:1])
+            mid = magpy.Collection(inner, *srcs[1:2])
+            top = magpy.Collection(magpy.Collection(mid), *srcs[2:]) if rng.random() < 0.5 else magpy.Collection(mid, *srcs[2:])
+            srcs = [top]
+        kinds["form:" + form] = kinds.get("form:" + form, 0) + 1
         objs = all_objs(srcs + sens)
         before = [snap_obj(o) for o in objs]
         hashes = [a.tobytes() for a in caller_arrays]
         get = getattr(magpy, "get" + field)
+        if form == "coll-method":
+            get = lambda s_, o_, _m=getattr(srcs[0], "get" + field), **k_: _m(*(o_ if isinstance(o_, list) else [o_]), **k_)
+        elif form == "src-method" and len(srcs) == 1:
+            get = lambda s_, o_, _m=getattr(srcs[0], "get" + field), **k_: _m(*(o_ if isinstance(o_, list) else [o_]), **k_)
+        elif form == "sens-method" and len(sens) == 1:
+            get = lambda s_, o_, _m=getattr(sens[0], "get" + field), **k_: _m(*s_, **k_)
         err = None
         res = None
         try:
